@@ -121,6 +121,10 @@ class RecheckProp(Prop):
              "what": "4 files, sizes 0..3"},
             {"module": "HashChecker.tla", "cfg": "MC_HashChecker_quick.cfg" if q else "MC_HashChecker.cfg",
              "what": "v2/hybrid recheck iterator + Padder + FileHasher on short/absent files vs RecheckRef"},
+            {"module": "FeedChecker.tla", "cfg": "MC_FeedChecker_live.cfg",
+             "what": "liveness: the v1 recheck iteration ends for every (recorded, on-disk) state"},
+            {"module": "HashChecker.tla", "cfg": "MC_HashChecker_live.cfg",
+             "what": "liveness: the v2 / hybrid recheck iteration ends for every (recorded, on-disk) state"},
             {"module": "FeedChecker.tla", "cfg": "MC_FeedChecker_code.cfg", "expect": "fail",
              "what": "iter_pieces as found at the pinned commit must violate StreamCorrect"},
             {"module": "HashChecker.tla", "cfg": "MC_HashChecker_code.cfg", "expect": "fail",
